@@ -250,12 +250,15 @@ def extra_obligations(eng, R, tier):
     leg_up = _const(eng, 's3transfer:S3Transfer', 'ALLOWED_UPLOAD_ARGS')
     leg_dl = _const(eng, 's3transfer:S3Transfer', 'ALLOWED_DOWNLOAD_ARGS')
     leg_part = _const(eng, 's3transfer:MultipartUploader', 'UPLOAD_PART_ARGS')
+    from .b_legacy import legacy_const
+    # (that complete / abort receive exactly these lists of the user's map is proved on MultipartUploader.upload_file, c05.py)
+    leg_complete, leg_abort = legacy_const(eng, 'COMPLETE_MULTIPART_ARGS'), legacy_const(eng, 'ABORT_MULTIPART_ARGS')
     for k in leg_up:
         cell('legacy.upload', 'single', 'PutObject', k, True, k in acc['PutObject'])
         cell('legacy.upload', 'multipart', 'CreateMultipartUpload', k, True, k in acc['CreateMultipartUpload'])
         cell('legacy.upload', 'multipart', 'UploadPart', k, k in leg_part, k in acc['UploadPart'])
-        cell('legacy.upload', 'multipart', 'CompleteMultipartUpload', k, False, k in acc['CompleteMultipartUpload'])
-        cell('legacy.upload', 'multipart', 'AbortMultipartUpload', k, False, k in acc['AbortMultipartUpload'])
+        cell('legacy.upload', 'multipart', 'CompleteMultipartUpload', k, k in leg_complete, k in acc['CompleteMultipartUpload'])
+        cell('legacy.upload', 'multipart', 'AbortMultipartUpload', k, k in leg_abort, k in acc['AbortMultipartUpload'])
     for k in leg_dl:
         cell('legacy.download', 'any', 'HeadObject', k, True, k in acc['HeadObject'])
         cell('legacy.download', 'any', 'GetObject', k, True, k in acc['GetObject'])
